@@ -251,7 +251,7 @@ def gen_entries(rng, tier, cmp, n=None, style=None, maxval=None):
         elif c == 1: n = 1
         elif c < 6: n = rng.range(2, 40)
         elif c < 10: n = rng.range(40, 400)
-        else: n = rng.range(400, 2000 if quick else 50000)
+        else: n = rng.range(400, 2000 if quick else (50000 if rng.chance(1, 6) else 8000))
     if style is None: style = rng.choice(KEY_STYLES)
     if maxval is None: maxval = (65536 + 40) if quick else (1 << 20)
     users = gen_user_keys(rng, n, style)
